@@ -27,6 +27,14 @@ def scenario_list(tier, seed):
             for s in ((11, 12) if tier == "quick" else (11, 12, 13, 14)):
                 out.append({"id": sid, "sim": sim, "n": n, "edges": edges, "seed": s * 7 + gi, "weighted": (s % 2 == 0)})
                 sid += 1
+    # very uneven weights: the weighted sampler needs thousands of proposals per selection
+    for s in (21, 22):
+        out.append({"id": sid, "sim": "Gillespie_SIS_skewed_weights", "n": 0, "edges": [], "seed": s, "weighted": True})
+        sid += 1
+    # the same call after the caller edited a weight of the SAME graph object in place must equal the call on a fresh graph
+    for gi, (n, edges) in enumerate(fam[:3]):
+        out.append({"id": sid, "sim": "simple_contagion_weight_edited_in_place", "n": n, "edges": edges, "seed": 31 + gi, "weighted": True})
+        sid += 1
     return out
 
 
@@ -50,6 +58,59 @@ def run_one(EoN, sc, full):
     sim = sc["sim"]
     random.seed(sc["seed"])
     np.random.seed(sc["seed"])
+    if sim == "Gillespie_SIS_skewed_weights":
+        nm = ["hub"] + ["leaf-%03d" % i for i in range(500)]
+        G = nx.Graph()
+        G.add_node("hub", g=1.0e6)
+        for x in nm[1:]:
+            G.add_node(x, g=1.0)
+            G.add_edge("hub", x, w=1.0)
+        r = EoN.Gillespie_SIS(G, 0.2, 1.0, initial_infecteds=list(nm), recovery_weight="g", transmission_weight="w", tmax=0.3, return_full_data=full)
+        if not full:
+            return {"arrays": [tuple(float(x) for x in a) for a in r]}
+        hist = tuple((u, tuple(float(t) for t in r.node_history(u)[0]), tuple(r.node_history(u)[1])) for u in nm[:40])
+        return {"full": (hist, ()), "arrays": [tuple(float(x) for x in r.t()), tuple(float(x) for x in r.I())]}
+    if sim == "simple_contagion_weight_edited_in_place":
+        def model_and_run(Gx):
+            H = nx.DiGraph()
+            H.add_edge("Inf", "Rec", rate=1.0, weight_label="g")
+            J = nx.DiGraph()
+            J.add_edge(("Inf", "Sus"), ("Inf", "Inf"), rate=1.5, weight_label="w")
+            IC = {u: "Sus" for u in Gx}
+            IC[nm[0]] = "Inf"
+            IC[nm[-1]] = "Inf"
+            random.seed(sc["seed"])
+            return EoN.Gillespie_simple_contagion(Gx, H, J, IC, ["Sus", "Inf", "Rec"], tmax=6, return_full_data=full)
+        model_and_run(G)                      # an earlier simulation on this graph object
+        for k, (u, v) in enumerate(G.edges()):
+            G[u][v]["w"] = 3.0 - G[u][v]["w"] * 0.5        # the caller edits the weights in place
+        for i, u in enumerate(G.nodes()):
+            G.nodes[u]["g"] = 0.25 + 0.5 * ((i + 1) % 3)
+        r = model_and_run(G)
+        kind_sts = ["Sus", "Inf", "Rec"]
+        if not full:
+            return {"arrays": [tuple(float(x) for x in a) for a in r]}
+        hist = tuple((u, tuple(float(t) for t in r.node_history(u)[0]), tuple(r.node_history(u)[1])) for u in nm)
+        return {"full": (hist, ()), "arrays": [tuple(float(x) for x in r.t())]}
+    if sim == "simple_contagion_weight_edited_in_place:fresh":
+        G2 = nx.Graph()
+        for i, u in enumerate(G.nodes()):
+            G2.add_node(u, g=0.25 + 0.5 * ((i + 1) % 3))
+        for k, (u, v) in enumerate(G.edges()):
+            G2.add_edge(u, v, w=3.0 - G[u][v]["w"] * 0.5)
+        H = nx.DiGraph()
+        H.add_edge("Inf", "Rec", rate=1.0, weight_label="g")
+        J = nx.DiGraph()
+        J.add_edge(("Inf", "Sus"), ("Inf", "Inf"), rate=1.5, weight_label="w")
+        IC = {u: "Sus" for u in G2}
+        IC[nm[0]] = "Inf"
+        IC[nm[-1]] = "Inf"
+        random.seed(sc["seed"])
+        r = EoN.Gillespie_simple_contagion(G2, H, J, IC, ["Sus", "Inf", "Rec"], tmax=6, return_full_data=full)
+        if not full:
+            return {"arrays": [tuple(float(x) for x in a) for a in r]}
+        hist = tuple((u, tuple(float(t) for t in r.node_history(u)[0]), tuple(r.node_history(u)[1])) for u in nm)
+        return {"full": (hist, ()), "arrays": [tuple(float(x) for x in r.t())]}
     if sim == "simple_contagion_directed":
         D = nx.DiGraph()
         D.add_nodes_from(nm)
@@ -167,6 +228,21 @@ def run_all(tier, seed, only=None):
         hidden.append("os.urandom")
         return orig_urandom(n)
     _os.urandom = urandom
+    # generators that seed themselves from the operating system
+    orig_rng = _np.random.default_rng
+
+    def default_rng(seed=None, *a, **k):
+        if seed is None:
+            hidden.append("numpy.random.default_rng() without a seed")
+        return orig_rng(seed, *a, **k)
+    _np.random.default_rng = default_rng
+    orig_sysrandom = _random.SystemRandom
+
+    class _SR(orig_sysrandom):
+        def __init__(self, *a, **k):
+            hidden.append("random.SystemRandom")
+            orig_sysrandom.__init__(self, *a, **k)
+    _random.SystemRandom = _SR
     out = {}
     for sc in scenario_list(tier, seed):
         if only is not None and sc["id"] not in only:
@@ -186,12 +262,17 @@ def run_all(tier, seed, only=None):
                     c = run_one(EoN, sc, full)
                     res[mode + ":after-abort"] = fp(c.get("full", c["arrays"]))
                 res[mode + ":arrays"] = fp(a["arrays"])
+                if sc["sim"] == "simple_contagion_weight_edited_in_place":
+                    d = run_one(EoN, dict(sc, sim=sc["sim"] + ":fresh"), full)
+                    res[mode + ":fresh-graph"] = fp(d.get("full", d["arrays"]))
                 if len(hidden) > before:
                     res[mode + ":hidden"] = hidden[before]
             except Exception as ex:
                 res[mode] = res[mode + ":repeat"] = res[mode + ":arrays"] = "raised:%s" % type(ex).__name__
         out[sc["id"]] = res
     _os.urandom = orig_urandom
+    _np.random.default_rng = orig_rng
+    _random.SystemRandom = orig_sysrandom
     return out
 
 
